@@ -110,6 +110,18 @@ func (lalr *LALR1) seqenceCanEpsilon(slice []*symbol.Symbol) bool {
 	return ret
 }
 
+// walk follows the symbols of seq from state and returns the state reached
+func (lalr *LALR1) walk(state int, seq []*symbol.Symbol) (int, bool) {
+	for _, sy := range seq {
+		index, err := lalr.fetchTransIndex(state, int(sy.ID))
+		if err != nil {
+			return 0, false
+		}
+		state = lalr.trans[index].to
+	}
+	return state, true
+}
+
 // func fetch A --> omega
 func (lalr *LALR1) fetchReduceTransistor() []Transistor {
 	res := []Transistor{}
